@@ -20,6 +20,9 @@ const ID = "C13"
 //	op      a table-building operation
 //	reg     register a recording callback: Owner kind, When, Target; Ref/Col choose the owner among what exists
 //	render  one render pass (Via: invoke | csv)
+//	seedcell  a stand-alone cell gets a render callback registered on it and is then added (by value) to
+//	          the rows Ref and Col: both copies carry the registration; later registrations on one copy
+//	          must not leak to the other
 type Step struct {
 	K      string  `json:"k"`
 	Op     *gen.Op `json:"op,omitempty"`
@@ -427,6 +430,53 @@ func CheckCase(c Case) *ev.Violation {
 			} else {
 				t.InvokeRenderCallbacks()
 			}
+		case "seedcell":
+			var rowsWithCells []*gen.MRow
+			for _, mr := range w.m.All {
+				if !mr.Sep && !mr.NilCells {
+					rowsWithCells = append(rowsWithCells, mr)
+				}
+			}
+			if len(rowsWithCells) == 0 {
+				break
+			}
+			a := rowsWithCells[((st.Ref%len(rowsWithCells))+len(rowsWithCells))%len(rowsWithCells)]
+			b := rowsWithCells[((st.Col%len(rowsWithCells))+len(rowsWithCells))%len(rowsWithCells)]
+			cell := tabular.NewCell("seed")
+			w.nextID++
+			id := w.nextID
+			proto := &reg{id: id, owner: "cell", when: wRender, target: tItself}
+			if err := t.RegisterPropertyCallback(&cell, tabular.CB_AT_RENDER, tabular.CB_ON_ITSELF, &recorder{r: proto, w: w}); err != nil {
+				return ev.V("step %d: registering a render callback on a stand-alone cell failed: %v", step, err)
+			}
+			byID[id] = proto
+			for _, mr := range []*gen.MRow{a, b} {
+				// the add itself may fire the row's add-time cell callbacks
+				w.predictOp(gen.Op{K: "rowadd", Ref: w.rowIndex(mr), Items: []gen.Item{gen.S("seed")}}, &pred)
+				mr.Real.Add(cell)
+				mr.Cells = append(mr.Cells, gen.MCell{It: gen.S("seed"), Live: gen.Materialise(gen.S("seed")), Text: "seed"})
+				if mr.Attached && len(mr.Cells) > w.m.MaxEver {
+					w.m.MaxEver = len(mr.Cells)
+				}
+				w.regs = append(w.regs, &reg{id: id, owner: "cell", row: mr, cell: len(mr.Cells) - 1, when: wRender, target: tItself})
+			}
+			if st.Target%3 != 0 {
+				// one more render callback on each live copy: it belongs to that copy only
+				for _, mr := range []*gen.MRow{a, b} {
+					cells := mr.Real.Cells()
+					j := len(mr.Cells) - 1
+					w.nextID++
+					r2 := &reg{id: w.nextID, owner: "cell", row: mr, cell: j, when: wRender, target: tItself}
+					if err := t.RegisterPropertyCallback(&cells[j], tabular.CB_AT_RENDER, tabular.CB_ON_ITSELF, &recorder{r: r2, w: w}); err != nil {
+						return ev.V("step %d: registering on a cell copy failed: %v", step, err)
+					}
+					w.regs = append(w.regs, r2)
+					byID[r2.id] = r2
+					if a == b {
+						break
+					}
+				}
+			}
 		case "reg":
 			r := &reg{owner: st.Owner, when: st.When % 4, target: st.Target % 3}
 			var owner tabular.PropertyOwner
@@ -440,7 +490,7 @@ func CheckCase(c Case) *ev.Violation {
 			case "table":
 				owner = t
 			case "column":
-				r.col = st.Col % (t.NColumns() + 1)
+				r.col = ((st.Col % (t.NColumns() + 1)) + t.NColumns() + 1) % (t.NColumns() + 1)
 				owner = t.Column(r.col)
 			case "row":
 				if mr := pick(); mr != nil {
@@ -450,7 +500,7 @@ func CheckCase(c Case) *ev.Violation {
 			case "cell":
 				if mr := pick(); mr != nil && len(mr.Cells) > 0 {
 					cells := mr.Real.Cells()
-					r.row, r.cell = mr, st.Col%len(mr.Cells)
+					r.row, r.cell = mr, ((st.Col%len(mr.Cells))+len(mr.Cells))%len(mr.Cells)
 					if r.cell < len(cells) {
 						owner = &cells[r.cell]
 					}
@@ -458,7 +508,7 @@ func CheckCase(c Case) *ev.Violation {
 			case "hdrcell":
 				hs := t.Headers()
 				if len(hs) > 0 {
-					r.cell, r.hdrGen = st.Col%len(hs), w.hdrGen
+					r.cell, r.hdrGen = ((st.Col%len(hs))+len(hs))%len(hs), w.hdrGen
 					owner = &hs[r.cell]
 				}
 			}
